@@ -73,6 +73,15 @@ func NewPackScanner(hashSize int, pack, idx, rev billy.File) (*PackScanner, erro
 		return nil, err
 	}
 
+	// The reverse index holds one position per object of the index; one
+	// that does not is for another pack and must not be answered from.
+	if want := revHeader + s.count*4 + 2*s.hashSize; len(s.revMmap) != want {
+		_ = s.packCleanup()
+		_ = s.revCleanup()
+		_ = s.idxCleanup()
+		return nil, fmt.Errorf("malformed rev file: size %d is inconsistent with object count %d", len(s.revMmap), s.count)
+	}
+
 	return s, nil
 }
 
